@@ -9,7 +9,7 @@ TERNARY = ["+", "-", "*", "/"]
 
 def run(ctx):
     return N.run_property(ctx, "C09", UNARY, BINARY, TERNARY,
-                          "every unary and binary arithmetic operation over the 65-number grid of MCNumbers.tla (literals and values produced by arithmetic), sampled 3-operand folds, "
+                          "every unary and binary arithmetic operation over the 75-number grid of MCNumbers.tla (literals and values produced by arithmetic), sampled 3-operand folds, "
                           "and random operand tuples; each recorded application is judged by NumbersX!Verdict in NumbersTrace.tla; non-trivial = distinct case")
 
 
